@@ -663,7 +663,7 @@ def oracle(case, res):
     info = {"raised": F is not None, "deliverable": False, "delivered": False, "earlier": 0}
     if res["build_error"] is not None:
         return [("build-error", f"building the operator raised {res['build_error']!r}")], info
-    outputs_mode = CATALOGUE[case["operator"]]["kind"] == "outputs"
+    outputs_mode = CATALOGUE.get(case["operator"], {}).get("kind") == "outputs"
     # ---- grammar of every stream, any case (the property says it STILL holds)
     g = _grammar([(s, k) for (s, _, k, _) in A["outs"]])
     if g:
